@@ -171,10 +171,12 @@ theorem open_inv {d : Disk} {A : List Rec} (i : DInv d A) :
     refine ⟨replayFiles_EWF _ _ hs' w0, replayFiles_RWF _ _ hs' (empty_RWF _), ?_, ?_, ?_, Equiv.rfl' _ _, ?_, ?_, ?_, ?_,
       ?_, ?_⟩
     rotate_right 2
-    · obtain ⟨g1, g2⟩ := foldl_seqAfter_ge (clearLastGarbage d.files) 1 hs'
+    · intro _
+      obtain ⟨g1, g2⟩ := foldl_seqAfter_ge (clearLastGarbage d.files) 1 hs'
       exact ⟨by show 0 < (clearLastGarbage d.files).foldl seqAfterFile 1; omega, g2⟩
     · intro _; exact clearLastGarbage_all_clean d.files i.garb
-    · have := replayFiles_covers _ (clearLastGarbage d.files) hs' [] (covers_nil (d.wm.getD 0))
+    · intro _
+      have := replayFiles_covers _ (clearLastGarbage d.files) hs' [] (covers_nil (d.wm.getD 0))
       simpa using this
     · show (replayFiles _ _).pruned = _
       rw [cp]; exact hw
